@@ -126,3 +126,6 @@ def _rejected_value(env, cfg):
         mod.np = saved[0]
         if saved[1] is not None:
             mod.__dict__['float'] = saved[1]
+
+
+META['explanation'] += ' Further groups: different read patterns (var first, sparse reads); a value the real float buffer refuses leaves the window intact.'
